@@ -129,3 +129,7 @@ V('C20', 'crossrefs-filter-by-graph-keys', 'edb/schema/delta.py',
   "if not x.is_parent_ref(schema, ref) and x != ref}",
   "if ref in graph and not x.is_parent_ref(schema, ref) and x != ref}",
   None)
+
+# round 5: the stored seeded breaks this property's check reports, replayed as variants
+from sa.selftest import VP  # noqa
+VP('C20', 'C20-e1', 'C20.R1', 'visiting.add')
